@@ -1301,6 +1301,7 @@ func ruleN4(p *Prog, r *Report) {
 		}
 	}
 	r.Floor(R, "SlabID to ValueID conversions", 1, nConv)
+	n4Unwrapped(p, r)
 	r.Floor(R, "value id / slab id identity predicates", 1, n)
 }
 
